@@ -506,15 +506,27 @@ func (c *lctx) stmt(st *fstate, s ast.Stmt) string {
 	case *ast.ForStmt:
 		pre := c.stmt(st, x.Init)
 		cond := c.exprEv(st, x.Cond)
-		body := seq(c.block(st, x.Body.List), "SSkip")
+		body := seq(c.iterEv(st), seq(c.block(st, x.Body.List), "SSkip"))
 		post := c.stmt(st, x.Post)
 		return seq(pre, seq("(SLoop "+seq(cond, "(SCont "+body+")")+" "+seq(post, "SSkip")+")", cond))
 	case *ast.RangeStmt:
 		pre := c.exprEv(st, x.X)
 		recv := "SSkip"
 		// ranging over a channel blocks
-		body := c.block(st, x.Body.List)
+		body := seq(c.iterEv(st), c.block(st, x.Body.List))
 		return seq(pre, "(SLoop "+seq(recv, "(SCont "+body+")")+" SSkip)")
+	}
+	return "SSkip"
+}
+
+// calltrace mode: the start of an iteration of a loop of the ROOT function is an event of its own (label "@iter"),
+// so that an obligation can ask for a check in the same iteration as the action it guards
+func (c *lctx) iterEv(st *fstate) string {
+	if c.track == nil || !st.root {
+		return "SSkip"
+	}
+	if id, ok := c.track["@iter"]; ok {
+		return fmt.Sprintf("(SEv KCall %d)", id)
 	}
 	return "SSkip"
 }
